@@ -67,7 +67,7 @@ class Captured:
         self.opt_calls = []  # (input copy, output) of optimizer.optimize
 
 
-def compile_case(objs, options=None, capture_opt=False, prefix="vf"):
+def compile_case(objs, options=None, capture_opt=False, prefix="vf", disable_opt=False):
     """analysis -> IR -> code generation through FFCx's own entry points,
     recording the AST object handed to the formatter for every kernel."""
     import copy
@@ -107,7 +107,9 @@ def compile_case(objs, options=None, capture_opt=False, prefix="vf"):
     nint.IntegralGenerator = IG
     cexpr.ExpressionGenerator = EG
     nexpr.ExpressionGenerator = EG
-    if capture_opt:
+    if disable_opt:
+        ig_mod.optimize = lambda code, rule: code
+    elif capture_opt:
         real_opt = ig_mod.optimize
 
         def wrapped(code, rule):
@@ -136,7 +138,7 @@ def compile_case(objs, options=None, capture_opt=False, prefix="vf"):
 # LNodes -> plain python tuples (the shape of coq/theories/LN.v)
 
 RESERVED = {"A": 1, "w": 2, "c": 3, "coordinate_dofs": 4, "entity_local_index": 5,
-            "quadrature_permutation": 6}
+            "quadrature_permutation": 6, "I": 7}
 
 
 class Unsupported(Exception):
@@ -476,6 +478,23 @@ def kernel_contract(cap, k):
         con["enabled"] = [bool(b) for b in enabled]
         con["w_total"] = off
         con["nc"] = int(sum(int(np.prod(c.ufl_shape, dtype=int)) for c in fd.original_form.constants()))
+        # constants / coefficients that occur in this integral's (preprocessed) integrands, extracted
+        # by the harness itself: a kernel may read only their storage
+        from ufl.algorithms.analysis import extract_constants, extract_coefficients
+        used_c = set()
+        used_w = set()
+        for i_ in itg.integrals:
+            used_c |= set(extract_constants(i_.integrand()))
+            used_w |= set(extract_coefficients(i_.integrand()))
+        off_c, cr = 0, []
+        for c_ in fd.original_form.constants():
+            n_ = int(np.prod(c_.ufl_shape, dtype=int))
+            if c_ in used_c:
+                cr.append([off_c, off_c + n_])
+            off_c += n_
+        con["c_used"] = cr
+        con["w_used_not_enabled"] = [k for k, cf in enumerate(fd.reduced_coefficients)
+                                     if cf in used_w and not enabled[k]]
         meshes = set(d for i in itg.integrals for d in ufl.domain.extract_domains(i.integrand()))
         meshes.add(itg.domain)
         con["mixed_mesh"] = len(meshes) > 1
@@ -523,6 +542,8 @@ def kernel_contract(cap, k):
         con["enabled"] = [True] * len(ranges)
         con["w_total"] = off
         con["nc"] = int(sum(int(np.prod(c.ufl_shape, dtype=int)) for c in consts))
+        con["c_used"] = [[0, con["nc"]]] if con["nc"] else []
+        con["w_used_not_enabled"] = []
         doms = ufl.domain.extract_domains(expr)
         con["mixed_mesh"] = len(set(doms)) > 1
         if doms:
